@@ -8,6 +8,7 @@ import Verif.Proofs.C09XmlMain
 import Verif.Proofs.C09SvgMain
 import Verif.Proofs.C09Css
 import Verif.Proofs.C09Html
+import Verif.Proofs.C09Js
 /-!
 # C09 — accepted input yields syntactically valid output that is accepted again
 
@@ -296,5 +297,28 @@ theorem html_second_pass_defined : type_of% @Verif.Proofs.C09Html.html_second_pa
 /-- html.go is not idempotent (not a C09 violation) -/
 theorem html_idempotent_counterexample : type_of% @Verif.Proofs.C09Html.html_idempotent_counterexample :=
   @Verif.Proofs.C09Html.html_idempotent_counterexample
+/-! ## JS -/
+
+/-- **JS, writer level**: for every token list of the C01 token alphabet without an impossible adjacency, the bytes
+    written by the writer model (`write`, `writeSpaceBeforeIdent`, `writeSpaceBefore`, `writeSpaceAfterIdent`,
+    `a-- >b`, `<! --`) lex back, with the independent lexer `Spec.C09JsLex`, to exactly these tokens -/
+theorem js_token_sep : type_of% @Verif.Proofs.C09Js.js_token_sep := @Verif.Proofs.C09Js.js_token_sep
+
+/-- **JS, grammar trees**: the terminal string of every derivation tree of the expression grammar (plain names and
+    strings) satisfies the hypotheses of `js_token_sep` -/
+theorem js_tree_tokens_safe : type_of% @Verif.Proofs.C09Js.js_tree_tokens_safe :=
+  @Verif.Proofs.C09Js.js_tree_tokens_safe
+
+/-- **JS, grammar trees**: hence what the writer produces for it is read back as exactly that terminal string -/
+theorem js_tree_relex : type_of% @Verif.Proofs.C09Js.js_tree_relex := @Verif.Proofs.C09Js.js_tree_relex
+
+/-- **JS, expression printer**: the output of the printer model `printT` (C01) is token-separated and derives the
+    printed tree in the independent grammar: valid, and re-lexed to the intended tokens -/
+theorem js_expr_relex : type_of% @Verif.Proofs.C09Js.js_expr_relex := @Verif.Proofs.C09Js.js_expr_relex
+
+/-- **JS, statement printer** (partial, guard = every printed expression tree is a grammar tree with plain names):
+    the bytes of the statement printer model are read back as exactly the tokens written -/
+theorem js_print_relex_partial : type_of% @Verif.Proofs.C09Js.js_print_relex_partial :=
+  @Verif.Proofs.C09Js.js_print_relex_partial
 
 end Verif.Props.C09
